@@ -153,6 +153,7 @@ func (c *c06) elect(g *Rng) bool {
 			c.attached[n] = true
 			if h.Offset == wal.InvalidOffset && heads[leader].Offset >= 0 {
 				c.snapshotted[n] = true
+				c.strictNeedsSnapshot(n)
 			}
 		}
 	}
@@ -167,6 +168,18 @@ func (c *c06) elect(g *Rng) bool {
 	c.wl.prog = append(c.wl.prog, fmt.Sprintf("elect %s term=%d", leader, sc.term))
 	c.r.Count("elections", 1)
 	return true
+}
+
+// strictNeedsSnapshot: in the strict-file-system mode (C07) snapshots cannot be delivered (the sender reads
+// the checkpoint with the os package, the engine wrote it to the simulated file system), so a follower
+// that needs one never catches up and the shard depends on the other two nodes from then on.  What the
+// run reports afterwards (writes that cannot commit, elections that time out) says nothing about C07; the
+// same operations run with working snapshots under C06.
+func (c *c06) strictNeedsSnapshot(n string) {
+	if c.strict {
+		c.r.Count("strict_mode_follower_needs_snapshot", 1)
+		c.r.Abandon(fmt.Sprintf("follower %s needs a snapshot, which the strict file-system mode cannot deliver (after: %s)", n, lastN(c.wl.prog, 5)))
+	}
 }
 
 // attach fences a (re)started node in the current term and adds it to the leader's followers.
@@ -187,6 +200,7 @@ func (c *c06) attach(n string) bool {
 	c.attached[n] = true
 	if head.Offset == wal.InvalidOffset && c.wl.c.folded >= 0 {
 		c.snapshotted[n] = true
+		c.strictNeedsSnapshot(n)
 	}
 	if head.Offset == wal.InvalidOffset {
 		c.r.Count("empty_follower_attached", 1)
@@ -267,6 +281,10 @@ func (c *c06) checkpoint(where string, settle bool) {
 			}
 			time.Sleep(100 * time.Millisecond)
 		}
+		// entries of requests that had timed out may have been committed while waiting
+		if !c.fold() {
+			return
+		}
 	}
 	type rep struct {
 		name string
@@ -288,8 +306,16 @@ func (c *c06) checkpoint(where string, settle bool) {
 			return
 		}
 		off := dumpCommitOffset(dump) // the dump is one consistent engine snapshot
+		if off > c.wl.c.folded && !c.fold() {
+			return
+		}
 		if off > c.wl.c.folded {
-			c.wl.fail("applied-beyond-commit", "%s: replica %s has applied offset %d but the leader's commit offset is %d", where, n, off, c.wl.c.folded)
+			lv := c.wl.c.view()
+			ldesc := "no leader view"
+			if lv != nil && lv.Wal != nil {
+				ldesc = fmt.Sprintf("leader %s term %d status %v: quorum commit %d, head %d, log %d..%d (appended %d), folded up to %d", c.leader, lv.Term, lv.Status, lv.CommitOffset, lv.HeadOffset, lv.Wal.FirstOffset(), lv.Wal.LastOffset(), wal.SimLastAppended(lv.Wal), c.wl.c.folded)
+			}
+			c.wl.fail("applied-beyond-commit", "%s: replica %s (term %d, status %v) has applied offset %d but the leader's commit offset is %d (%s)", where, n, v.Term, v.Status, off, c.wl.c.folded, ldesc)
 			return
 		}
 		role := "follower"
